@@ -209,12 +209,19 @@ func (z *ioDecReader) unexpectedEOF() {
 }
 
 func (z *ioDecReader) readOne() (b byte, err error) {
-	n, err := z.r.Read(z.b[:])
-	if n == 1 {
-		err = nil
-		b = z.b[0]
+	// a Read may return (0, nil): that is no byte, not a zero byte. Try again
+	// a limited number of times (like fillbuf does).
+	var n int
+	for i := maxConsecutiveEmptyReads; i > 0; i-- {
+		n, err = z.r.Read(z.b[:])
+		if n == 1 {
+			return z.b[0], nil
+		}
+		if err != nil {
+			return 0, err
+		}
 	}
-	return
+	return 0, io.ErrNoProgress
 }
 
 // fillbuf reads a new chunk into the buffer.
